@@ -1,0 +1,33 @@
+//go:build verif
+
+// Contracts for the deductive verifier in /verif (govc). Comment-only.
+
+package tsdb
+
+//@ # ---- write-ahead-log sequences of a data family (C07) ------------------------------------------------------
+//@ # seq[leader] = last applied (possibly unflushed) sequence, persistSeq[leader] = last durably flushed sequence
+//@ func dataFamily.ValidateSequence
+//@   prop C07
+//@   requires f.seq != nil
+//@   ensures[only_sequences_above_the_applied_one_are_valid] result == (!has(f.seq, leader) || seq > f.seq[leader].val)
+//@ end
+//@ func dataFamily.CommitSequence
+//@   prop C07
+//@   requires f.seq != nil
+//@   modifies f.seq[*]
+//@   ensures[applied_sequence_recorded] has(f.seq, leader) && f.seq[leader].val == seq
+//@   ensures[other_leaders_untouched] all(l, "int32", l != leader ==> (has(f.seq, l) == old(has(f.seq, l)) && f.seq[l] == old(f.seq[l])))
+//@ end
+//@ # a replicator that registers for acknowledgements is told at once what is already durable - never more:
+//@ # the log may be truncated up to the acknowledged sequence
+//@ func dataFamily.AckSequence@fn
+//@   modifies nothing
+//@ end
+//@ func dataFamily.AckSequence
+//@   prop C07
+//@   requires f.persistSeq != nil && f.callbacks != nil && f.logger != nil && fn != nil
+//@   modifies f.callbacks[*]
+//@   ensures[acknowledges_exactly_the_durably_flushed_sequence] has(f.persistSeq, leader) ==> (calls(fn) == old(calls(fn)) + 1 && lastarg(fn) == f.persistSeq[leader].val)
+//@   ensures[nothing_durable_nothing_acknowledged] !has(f.persistSeq, leader) ==> calls(fn) == old(calls(fn))
+//@   ensures[flushed_and_applied_sequences_untouched] f.persistSeq == old(f.persistSeq) && f.seq == old(f.seq)
+//@ end
